@@ -72,7 +72,10 @@ def gen_cases(tier, seed):
         for srv in ('flood_exit', 'flood_eof_close'):
             for acts in (['settle', 'close_wait'],
                          ['settle', 'close', 'settle', 'wait_closed'],
-                         ['write', 'settle', 'abort']):
+                         ['write', 'settle', 'abort'],
+                         # (process: wait() for the exit with more than a
+                         # window of unread output queued)
+                         ['settle', 'wait_closed']):
                 cases.append({'chans': [{'kind': kind, 'srv': srv,
                                          'acts': acts, 'window': window,
                                          'pause': pause}],
@@ -137,6 +140,22 @@ def gen_cases(tier, seed):
                               'chunk': 'all',
                               'stride': 1 if tier == 'thorough' else 3,
                               'cseed': 12})
+    # directed: the local side fills the peer's window to the byte (nothing
+    # left in its send buffer, no window either), the peer never reads, and
+    # then the local side ends the channel: EOF and CLOSE need no window
+    for kind in ('process', 'cb_session'):
+        for acts in (['write_window', 'close_wait'],
+                     ['write_window', 'eof', 'close_wait'],
+                     ['write_window', 'settle', 'close_wait'],
+                     ['write_window', 'write', 'close_wait'],
+                     ['write', 'close_wait']):
+            cases.append({'chans': [{'kind': kind, 'srv': 'stall_hold',
+                                     'acts': acts, 'window': None,
+                                     'pause': False}],
+                          'ending': 'close_then_wait', 'concurrent': True,
+                          'end_when': 'done', 'chunk': 'all',
+                          'stride': 1 if tier == 'thorough' else 3,
+                          'cseed': 17})
     for i in range(n):
         chans = []
         for _ in range(rng.choice([1, 1, 2, 2, 3, 4])):
@@ -324,6 +343,10 @@ async def _server_session_task(ctx, sess):
                 if beh == 'stall_eof_close':
                     chan.write_eof()
                 chan.close()
+        elif beh == 'stall_hold':
+            # never reads, never acts: whatever ends this channel comes from
+            # the other side
+            await ctx['gate'].wait()
         elif beh == 'flood_exit':
             for n in sess.flood:
                 chan.write('z' * n)
@@ -477,6 +500,10 @@ async def _client_channel(ctx, tr, conn, i, spec, rng):
             elif a == 'write_big':
                 (writer.write if writer else chan.write)(
                     big if kind != 'tcp' else big.encode())
+            elif a == 'write_window':
+                # exactly what the stalling peer's window (1024) allows
+                (writer.write if writer else chan.write)(
+                    'w' * 1024 if kind != 'tcp' else b'w' * 1024)
             elif a == 'eof':
                 chan.write_eof()
             elif a == 'close':
@@ -674,6 +701,25 @@ def _run_once(case, cut, mon, viol, record_trace=None):
                                   f'still up; cut={cut} '
                                   f'script={_short(case)}'})
                     break
+            # The process API manages its own flow control: once the peer
+            # has sent everything including its CLOSE, wait() has nothing
+            # left to wait for, however much unread output is queued.
+            if len(case['chans']) == 1 and cut is None and \
+                    case['chans'][0]['kind'] == 'process' and \
+                    ctx['ssessions'] and ctx['ssessions'][0].chan is not None:
+                try:
+                    peer_done = ctx['ssessions'][0].chan.is_closing()
+                except Exception:       # pylint: disable=broad-except
+                    peer_done = False
+                for name in tr.pending():
+                    if name.startswith('proc_wait') and peer_done:
+                        viol.append({
+                            'mechanism': 'wait_hangs_after_peer_close',
+                            'detail': f'{name} still pending at quiescence '
+                                      f'although the peer has exited and '
+                                      f'closed the channel; '
+                                      f'script={_short(case)}'})
+                        break
             for name in tr.pending():
                 if 'wait_closed' in name:
                     viol.append({
